@@ -387,8 +387,9 @@ func (c *c20case) build() []*c20rec {
 				r.tags = append(r.tags, [2]string{"ta", fmt.Sprintf("wa%d", i)})
 			}
 			if c.pmode >= 2 {
-				r.params = append(r.params, [2]string{"pb_x", fmt.Sprintf("vb%d", i)})
-				r.tags = append(r.tags, [2]string{"tb_y", fmt.Sprintf("wb%d", i)})
+				// values with a printf verb / a bare percent sign: reports must show them as recorded
+				r.params = append(r.params, [2]string{"pb_x", fmt.Sprintf("vb%d%%s", i)})
+				r.tags = append(r.tags, [2]string{"tb_y", fmt.Sprintf("wb%d%%d%%", i)})
 			}
 			t := c20epoch.Add(time.Duration(c.ranks[i]+1) * time.Second)
 			if c.zone == 1 && i%2 == 1 {
